@@ -190,6 +190,30 @@ def channel_case(p, res):
                         break
             except Exception as e:  # noqa: BLE001
                 v("raises", f"0-d tensor parameter / repeated calls: {type(e).__name__}: {str(e)[:200]}")
+        # ------------- (i+) ONE channel object serving real and complex signals, several shapes and signal powers in turn: the configured value
+        # is delivered in every call (nothing derived from an earlier call's input may be reused for a different kind of input)
+        if par in ("power", "snr") and ch in ("awgn", "laplacian", "nonlinear-id") and mode == "direct":
+            for val in (values[1], values[-2]):
+                run, ref = build(ch, par, val, mode)
+                seq = [(cplx, 1.0, 0), (not cplx, 1.0, 0), (cplx, 10.0, 1), (not cplx, 0.1, 2), (cplx, 1.0, 0)]
+                for call, (cx, sp, sk) in enumerate(seq):
+                    x = signal(N, sp, cx, sk)
+                    try:
+                        with Seam(Quantile()):
+                            y = run(x)
+                        fx = ref(x)
+                    except Exception as e:  # noqa: BLE001
+                        v("raises", f"{par}={val}, call {call + 1} of a mixed real/complex sequence on one object: {type(e).__name__}: {str(e)[:200]}")
+                        break
+                    res.ev(1, nontrivial=1, transitions=1)
+                    nzz = (y - fx).to(torch.complex128 if (y.is_complex() or fx.is_complex()) else torch.float64)
+                    pn = float((nzz.abs() ** 2).mean())
+                    fxp = float((fx.to(torch.complex128 if fx.is_complex() else torch.float64).abs() ** 2).mean())
+                    want = val if par == "power" else fxp / 10 ** (val / 10)
+                    if tuple(y.shape) != tuple(x.shape) or y.is_complex() != x.is_complex() or abs(pn - want) > TOL * want:
+                        v("power" if par == "power" else "snr", f"{par}={val}: call {call + 1} on one channel object ({'complex' if cx else 'real'} signal of power {sp:g}, shape {tuple(x.shape)}, after "
+                          f"{[('complex' if c_ else 'real') for c_, _, _ in seq[:call]]}): measured noise power {pn:.6g}, configured {want:.6g} (ratio {pn / want:.4f})", {"call": call})
+                        break
         # ------------- (i'') double-precision signals: same law (a channel may decline a dtype, it may not deliver another power)
         for val in (values[0], values[len(values) // 2], values[-1]):
             xd = signal(N, 1.0, cplx, 1)
